@@ -416,6 +416,47 @@ def multi_stream(ck, binp):
                 "non-trivial = some fragment matches and some fragment is not delivered"}
 
 
+def blackbox(ck):
+    """thorough tier: one ts-server built from the working tree, column-store measurements with generated primary keys, rows
+    written over HTTP and flushed by the real memtable / ColumnStoreTSSPWriter / primary-index writer; every condition is asked
+    over the key fields (index narrows the scan) and over twin non-key fields holding the same values (full scan). A row that
+    satisfies the condition and is returned by the full scan must be returned by the indexed query (stable over 4 attempts)."""
+    srv = ck.go_build_repo("./app/ts-server", "ts-server")
+    bb = ck.go_build("./cmd/c20bb", "c20bb", tags="verif")
+    if not srv or not bb:
+        return
+    conf = os.path.join(ck.repo, "config", "openGemini.singlenode.conf")
+    rc, out = ck.run([bb, srv, conf, "22000", ck.work, "20000", "60"], timeout=1200)
+    msts, done = [], False
+    for l in out.splitlines():
+        if l.startswith('{"bb"'):
+            t = json.loads(l)
+            if t["bb"] == "mst":
+                msts.append(t)
+            elif t["bb"] == "done":
+                done = True
+            elif t["bb"] == "error":
+                ck.broken.append("black box c20bb: %s" % t.get("msg", "")[:300])
+                return
+    if rc != 0 or not done:
+        ck.broken.append("black box c20bb failed rc=%d: %s" % (rc, out[-300:]))
+        return
+    known = viol = 0
+    for t in msts:
+        for f in t.get("failures") or []:
+            if f.get("litmix") and not f.get("err") and ck.match_finding(F_LIT):
+                ck.known_finding(F_LIT, "black box: the indexed query misses rows the full scan returns: a float key field is compared with a literal of integral value, which reaches the store as an integer literal")
+                known += 1
+                continue
+            viol += 1
+            if viol <= 3:
+                ck.violation({"kind": "black-box", "what": "the query over the primary-key fields misses rows that satisfy the condition and that the same query over non-key twin fields returns",
+                              "failure": f})
+    ck.cov["black_box"] = {"measurements": [{k: t.get(k) for k in ("mst", "types", "rows", "files", "queries", "nontrivial", "brute_disagree", "retries")} for t in msts],
+                           "known_literal_type": known, "violations": viol,
+                           "rule": "20000 rows per measurement (3 fragments of 8192 rows per flush, 1-2 files), 60 condition trees each asked over key fields and over twin fields"}
+
+
 def _coq_atoms(tr):
     if tr[0] == "atom":
         a = tr[1]
@@ -866,6 +907,8 @@ def main(ck):
             ck.broken.append("harness c20 bloom: skip-index probe line missing")
     if n:
         multi_stream(ck, binp)
+    if n and (ck.tier == "thorough" or os.environ.get("C20_BLACKBOX")):
+        blackbox(ck)
     if n:
         rc, cs, out = run_harness(ck, binp, ["gen", str(n)])
         if rc != 0 or len(cs) != n:
